@@ -63,6 +63,9 @@ def add_family():
                             small = na <= 3 and nb <= 3
                             # quick: every shape<=3 x sign pair x op with one rotating form
                             quick = small and (f == (na * 7 + nb * 3 + (sa == "n") * 2 + (sb == "n") + (op == "sub")) % 5)
+                            # plus the mixed-ownership forms on heap operands of different lengths (buffer reuse + swap)
+                            if (na, nb) in ((3, 4), (4, 3)) and f in (2, 3) and sa != sb:
+                                quick = True
                             props = {}
                             if quick:
                                 props = Q("C01", "C15", "C17")
@@ -96,7 +99,9 @@ def add_family():
                       unwind=m + 4, bound="UBig-UBig lengths exactly (%d,%d), a>=b" % (na, nb))
                 if nb >= na and nb > 0:
                     pp = dict(props)
-                    pp["C16"] = "quick" if quick else "thorough"
+                    if (na, nb) in ((3, 3), (2, 3)):
+                        pp = Q("C01", "C15", "C17")  # every ownership form has its own borrow handling
+                    pp["C16"] = "quick" if (quick or (na, nb) == (3, 3)) else "thorough"
                     H("c01_sub_u_underflow_%d%d_%s" % (na, nb, fn), "h_add::sub_ubig_underflow::<%d,%d>(%d)" % (na, nb, f), pp,
                       kind="panic", unwind=m + 4, bound="UBig-UBig lengths exactly (%d,%d), a<b must panic" % (na, nb))
     # mixed UBig/IBig forms
@@ -485,7 +490,7 @@ def div_family():
     for dn, d in DIVS.items():
         for na in (1, 2, 3, 4):
             for w in range(4):
-                quick = w == (na + len(d)) % 4 and na in (2, 3)
+                quick = (w == (na + len(d)) % 4 and na in (2, 3)) or (na == len(d) and na >= 2 and w in (0, 3))
                 H("c02_constdiv_%s_%d_%d" % (dn, na, w), "h_div::const_div::<%d,%d>([%s],%d,4)" % (na, len(d), ",".join(str(v) for v in d), w),
                   Q("C02") if quick else TH("C02"), unwind=na + len(d) + 8, bound="ConstDivisor(%s) vs plain division, structured dividends of %d words" % (dn, na))
 
@@ -572,6 +577,14 @@ def text_family():
                   Q("C07") if q else TH("C07"), unwind=140, bound="Display of in_radix(%d) for every value below 2^%d (%s): digits = positional representation" % (radix, bits, "negative" if neg else "non-negative"))
 
 
+    for w in range(14):
+        H("c07_fmt_flags_u_%d" % w, "h_text::fmt_flags_u(%d)" % w, Q("C07") if w in (3, 5, 7, 10) else TH("C07"), unwind=48,
+          bound="UBig formatted with flag combination #%d equals Rust's formatting of the same u32, every value" % w)
+    for w in range(8):
+        H("c07_fmt_flags_i_%d" % w, "h_text::fmt_flags_i(%d)" % w, Q("C07") if w in (3, 5) else TH("C07"), unwind=48,
+          bound="IBig (decimal) formatted with flag combination #%d equals Rust's formatting of the same i32, every value" % w)
+
+
 def nt_family():
     for w, nm in enumerate(("u8", "u16", "u32")):
         H("c12_gcd_prim_%s" % nm, "h_nt::gcd_prim(%d)" % w, Q("C12") if w < 2 else TH("C12"), unwind=(20, 36, 70)[w],
@@ -589,8 +602,10 @@ def nt_family():
     H("c12_log2_u32", "h_nt::log2_wide(false)", Q("C12", "C19"), unwind=4, bound="no_std log2_bounds for every u32 > 65535: exact where the bits below the 16-bit prefix are zero, necessary conditions elsewhere")
     H("c12_log2_u64", "h_nt::log2_wide(true)", TH("C12", "C19"), unwind=4, bound="no_std log2_bounds for every u64 > 65535 (same criterion)")
     H("c12_next_updown", "h_nt::next_updown()", Q("C12"), unwind=4, bound="next_up/next_down for every finite f32")
+    H("c12_nth_root_zero", "h_nt::nth_root_zero_one(false)", Q("C12"), "i64", unwind=6, bound="UBig/IBig::nth_root(n) of 0 for every n >= 1")
+    H("c12_nth_root_one", "h_nt::nth_root_zero_one(true)", Q("C12"), "i64", unwind=6, bound="UBig/IBig::nth_root(n) of 1 for every n >= 1")
     for n in (3, 4, 5, 7, 64, 100):
-        H("c12_nth_root_tiny_%d" % n, "h_nt::nth_root_tiny(%d)" % n, Q("C12") if n in (3, 5, 64) else TH("C12"), "i64", unwind=6,
+        H("c12_nth_root_tiny_%d" % n, "h_nt::nth_root_tiny(%d)" % n, TH("C12"), "i64", unwind=6,
           bound="UBig::nth_root(%d) for every value below 2^%d (incl. 0)" % (n, min(n, 64)))
     for w in range(4):
         H("c12_sqrt_small_%d" % w, "h_nt::sqrt_small(16,%d)" % w, Q("C12") if w in (0, 1) else TH("C12"), "i64", unwind=12, bound="UBig sqrt/sqrt_rem/nth_root(1,2) for every value below 2^16")
@@ -604,6 +619,12 @@ def nt_family():
             H("c12_ilog_pow2_%d_k%d" % (n, k), "h_nt::ilog_pow2::<%d>(%d)" % (n, k), Q("C12") if (n + k) % 2 == 0 else TH("C12"), unwind=n + 4, bound="UBig::ilog(2^%d) for every value of exactly %d words" % (k, n))
     H("c12_gcd_small_8", "h_nt::gcd_small(8)", Q("C12"), "i64", unwind=300, bound="UBig gcd/gcd_ext, operands below 2^8 (Bezout identity)")
     H("c12_gcd_small_16", "h_nt::gcd_small(16)", TH("C12"), "i64", unwind=300, bound="UBig gcd/gcd_ext, operands below 2^16")
+    for b in (12, 1024, 10, 3):
+        for n in (3, 4):
+            for sw in (False, True):
+                H("c12_gcd_ext_large_word_%d_b%d_%s" % (n, b, "ba" if sw else "ab"), "h_nt::gcd_ext_large_word::<%d,%d>(%d,%s)" % (n, n + 2, b, "true" if sw else "false"),
+                  Q("C12") if (n == 3 and b in (12, 10)) else TH("C12"), unwind=80,
+                  bound="gcd_ext of %d structured words and the literal word %d: divisibility and Bezout identity with signs" % (n, b))
     for f in (2, 8, 3, 10):
         H("c12_remove_%d" % f, "h_nt::remove_small(12,%d)" % f, Q("C12") if f in (2, 8) else TH("C12"), "i64", unwind=24, bound="UBig::remove(%d) for every non-zero value below 2^12" % f)
 
@@ -633,6 +654,9 @@ def mod_family():
               bound="ConstDivisor(%d).reduce of every |a| < 2^32 (%s)" % (m, "negative" if neg else "non-negative"))
     for m in (1, 2, 9, 10, 12, 97):
         H("c13_inv_%d" % m, "h_mod::ring_inv(%d)" % m, Q("C13") if m in (1, 9, 10) else TH("C13"), unwind=80, bound="Reduced::inv in the ring mod %d, every residue" % m)
+    for mn, m in (("fsq", [1, 2, 1]), ("f_c3", [3, 4, 1])):
+        H("c13_inv_large_%s" % mn, "h_mod::ring_inv_large::<3>([%s],[1,1],8)" % ",".join(map(str, m)), Q("C13") if mn == "fsq" else TH("C13"), unwind=40,
+          bound="Reduced::inv in the 3-word ring m = (2^64+1)*c for elements +-k*(2^64+1), k < 2^8: must be None")
     for op in range(4):
         H("c13_mix_%d" % op, "h_mod::ring_mix(%d)" % op, Q("C13", "C16"), kind="panic", unwind=8, bound="operands from two ConstDivisor instances panic")
 
@@ -710,6 +734,19 @@ def buf_family():
       bound="KNOWN FINDING twin: negative IBig % u8 with a non-zero remainder")
 
 
+def float_family():
+    # base-2 float add/sub/mul on the real integer layer: exponent gap concrete, significands symbolic
+    for m, mn in enumerate(MODES):
+        for gap in (0, 1, 3, 6, 9, 20):
+            for sub in (False, True):
+                q = mn in ("Zero", "HalfEven", "Up") and gap in (0, 3, 9) and (sub == (gap == 3))
+                H("c03_%s_%s_g%d" % ("sub" if sub else "add", mn, gap), "h_float::ctx_addsub(%d,%d,5,8,%s)" % (m, gap, "true" if sub else "false"),
+                  Q("C03") if q else TH("C03"), "i64", unwind=24,
+                  bound="Context<%s>::new(5).%s on base-2 floats a*2^%d and b, |a|,|b| < 2^8: exact iff representable, < 1 ulp, side and flag per mode" % (mn, "sub" if sub else "add", gap))
+        H("c03_mul_%s" % mn, "h_float::ctx_mul(%d,5,8)" % m, Q("C03") if mn in ("Zero", "HalfAway", "Down") else TH("C03"), "i64", unwind=24,
+          bound="Context<%s>::new(5).mul on base-2 floats, |a|,|b| < 2^8" % mn)
+
+
 def thin():
     """secondary properties (C15 forms, C17 invariants, C16 panics) ride on the harnesses of the arithmetic
     families; in the quick tier they keep a deterministic quarter of those (all of them in thorough)"""
@@ -720,6 +757,7 @@ def thin():
                 keep = 4 if prop != "C19" else 2
                 if zlib.crc32((prop + e["name"]).encode()) % keep != 0:
                     e["props"][prop] = "thorough"
+
 
 
 def build():
@@ -739,5 +777,6 @@ def build():
     round_family()
     numord_family()
     buf_family()
+    float_family()
     thin()
     return T
